@@ -91,16 +91,7 @@ func raceNodeMain(env Env, args []string) int {
 			body []byte
 		}
 		solo := make([]resp, len(set))
-		if si > 0 || true {
-			// solo reference, except that the very first set runs concurrently at once so that
-			// lazily initialised state is first touched under parallelism
-		}
-		if si > 0 {
-			for i, r := range set {
-				c, b := do(r)
-				solo[i] = resp{c, b}
-			}
-		}
+		haveSolo := false
 		for round := 0; round < ri.Rounds; round++ {
 			res := make([]resp, len(set))
 			start := make(chan struct{})
@@ -117,11 +108,14 @@ func raceNodeMain(env Env, args []string) int {
 			close(start)
 			wg.Wait()
 			ro.Requests += int64(len(set))
-			if si == 0 && round == 0 {
+			if !haveSolo {
+				// the solo reference comes AFTER the first parallel round of every set: state that is
+				// initialised lazily on first use must be touched first under parallelism
 				for i, r := range set {
 					c, b := do(r)
 					solo[i] = resp{c, b}
 				}
+				haveSolo = true
 			}
 			for i := range set {
 				if res[i].code != solo[i].code || (res[i].code == 200 && !bytes.Equal(res[i].body, solo[i].body)) {
@@ -260,6 +254,13 @@ func raceSetsFromPlans(prop string, seed uint64, tier string, n int) [][]raceReq
 			}
 			if len(set) > 1 {
 				sets = append(sets, set)
+				// identical requests running simultaneously
+				for _, rq := range set {
+					if rq.Method == "POST" {
+						sets = append(sets, []raceReq{rq, rq, rq})
+						break
+					}
+				}
 			}
 			break
 		}
